@@ -130,6 +130,8 @@ pub trait TypeOps {
     /// `_deserialize_eps_inner` on `SliceWithPos{data: &placed[r..], pos: r}`: (value, final pos)
     fn inner_eps(&self, placed: &[u8], r: usize) -> Out<(Val, usize)>;
     fn ser_script(&self, i: usize, w: &mut ScriptWriter) -> Out<usize>;
+    /// the same through `serialize_with_schema`; returns the number of accepted bytes
+    fn ser_script_schema(&self, i: usize, w: &mut ScriptWriter) -> Out<usize>;
     fn full_script(&self, rd: &mut ScriptReader) -> Out<Val>;
     fn ser_schema(&self, i: usize) -> Out<SchemaOut>;
     /// `store` value i to a file.
@@ -137,7 +139,8 @@ pub trait TypeOps {
     /// Load with loader 0 load_full / 1 load_mem / 2 load_mmap / 3 mmap, then apply the
     /// history `steps` (0 move, 1 box/unbox, 2 swap with a second load, 3 thread round trip,
     /// 4 Arc share with a reader thread, 5 channel round trip), observing after every step
-    /// (`[255]`: load and drop without observing).
+    /// (`[255]`: load and drop without observing; `[254]`: observe spans and region but not the
+    /// value, with `region_bytes` = the last 64 bytes of the region).
     fn load_history(&self, loader: u8, path: &str, flags: u32, steps: &[u8]) -> Out<Vec<LoadObs>>;
 }
 
@@ -289,6 +292,11 @@ where
         let v = &vals[i];
         out3(guarded(|| v.serialize(w).map_err(|e| format!("{:?}", e))))
     }
+    fn ser_script_schema(&self, i: usize, w: &mut ScriptWriter) -> Out<usize> {
+        let vals = self.vals.borrow();
+        let v = &vals[i];
+        out3(guarded(|| { v.serialize_with_schema(&mut *w).map_err(|e| format!("{:?}", e))?; Ok(w.accepted.len()) }))
+    }
     fn full_script(&self, rd: &mut ScriptReader) -> Out<Val> {
         out3(guarded(|| T::deserialize_full(rd).map(|x| x.to_val()).map_err(|e| err_kind(&e))))
     }
@@ -325,6 +333,16 @@ where
             // value of the type (a zero discriminant of `enum { A = 3, .. }`): looking at such a
             // value would be the harness's own undefined behaviour.
             if steps == [255] { drop(c); return Ok(vec![]); }
+            // `[254]`: one observation of spans and region only (very large files)
+            if steps == [254] {
+                let mut spans = vec![];
+                (*c).spans(&mut spans);
+                let (kind, base, len) = c.__verif_backend();
+                let bytes: &[u8] = if kind == 0 { &[] } else { unsafe { core::slice::from_raw_parts(base, len) } };
+                let o = LoadObs { val: Val::Seq(vec![]), spans, region: (kind, base as usize, len), region_hash: xxhash_rust::xxh3::xxh3_64(bytes), region_bytes: bytes[bytes.len().saturating_sub(64)..].to_vec() };
+                drop(c);
+                return Ok(vec![o]);
+            }
             let mut obs = vec![observe(&c)];
             for st in steps {
                 match st {
